@@ -6,7 +6,9 @@ import guards
 CLAIMS = ("R1 the three aggregate-decomposition tables of distributed/plan.rs agree with each other and with the exact table COUNT->(COUNT,SUM), SUM->(SUM,SUM), MIN->(MIN,MIN), MAX->(MAX,MAX), AVG->((SUM,COUNT), SUM/SUM); nothing else is supported and the plan-level net refuses every other aggregate and every DISTINCT; "
           "R2 in rewrite_function the supported-aggregate rewrite is reached only past the OVER / FILTER / parameters / DISTINCT / in-argument ORDER BY refusals; "
           "R3 plan_topn pre-truncates each shard to LIMIT + OFFSET (both read on that path, combined by addition) and only when a limit exists; "
-          "R4 execute_any_distributed falls to the gather path only from the NotImplemented arm (other planning errors propagate), and merge() refuses the Gather shape.")
+          "R4 execute_any_distributed falls to the gather path only from the NotImplemented arm (other planning errors propagate), and merge() refuses the Gather shape; "
+          "R5 shard-safety only ever decreases while the capability check walks the plan: the shard_safe flag handed to a child is the incoming flag or false, never a fresh true; per join type the null-supplying / build side gets false (LEFT, SEMI, ANTI: right; RIGHT: left; FULL and the internal kinds: both); a scan becomes shard-eligible only under `!in_subquery && shard_safe`; "
+          "R6 (= C05.R7) Split::file never keys a lookup.")
 NOT_DECIDED = "correctness of the rewritten SQL text for arbitrary statements; row-order questions."
 
 P = "distributed::plan"
@@ -19,6 +21,74 @@ def lits_in(fn, span, role_prefix=None):
         if v.startswith("s:") and span_contains(span, sp) and (role_prefix is None or role.startswith(role_prefix)):
             out.append((v[2:], sp))
     return out
+
+
+WF = "distributed::plan::WalkFlags"
+JN = "planner::logical_plan::JoinNode"
+# which sides may inherit the incoming flag: (left, right)
+SIDE_TABLE = {"Inner": (True, True), "Cross": (True, True), "Left": (True, False), "Semi": (True, False), "Anti": (True, False), "Right": (False, True), "Full": (False, False)}
+
+
+def shard_safety(F, R):
+    R.rule("C09.R5", "K5 monotone flag + K4 arm table + K3 guard", "shard_safe handed to children = incoming flag or false; join-type table; scan eligibility guarded by !in_subquery && shard_safe")
+    wc = F.fn(P + "::walk_census")
+    fam = [g for g in F.family(wc.path)] + [g for g in F.family(P + "::census_expr")]
+    n = 0
+    for g in fam:
+        for i, j, dst, rv, line in g.stmts():
+            if rv[0] == "agg" and rv[1] == "adt:" + WF:
+                n += 1
+                m = dict(zip(rv[3], rv[2]))
+                fresh = derives_from(g, [m["shard_safe"]], lambda k, x: (k == "const" and x.get("v") is True and x) or None, through_calls=False)
+                R.check(not fresh, "C09.R5", f"{F.bodies[g.path]['name']}:shard_safe-monotone#{n}", "a child of the plan walk is handed shard_safe = true regardless of the incoming flag: a table below the null-supplying side of an outer join (or the build side of a semi/anti join) becomes shard-eligible again, and every shard then emits the preserved side's unmatched rows", g.loc(i), dict())
+    R.floor("C09.R5", "WalkFlags literals in the census walk", n, 3)
+    # join-type table
+    ms = [m for m in wc.raw["matches"] if m["kind"] == "match" and m["scrut"].endswith("::JoinType")]
+    if len(ms) != 1:
+        raise Broken(f"walk_census: {len(ms)} matches on JoinType")
+    # which tuple component feeds which side
+    comp = {}
+    for c in wc.calls():
+        if c.name != wc.path:
+            continue
+        side = derives_from(wc, [c.args[0]], lambda k, x: (k == "place" and [f_ for f_, a in place_fields(x) if a == JN and f_ in ("left", "right")]) or None)
+        fl = origin(wc, c.args[2])
+        if side and fl[0] == "rv" and fl[1][0] == "agg" and fl[1][1] == "adt:" + WF:
+            m = dict(zip(fl[1][3], fl[1][2]))
+            o = origin(wc, m["shard_safe"])
+            if o[0] == "place":
+                parts = o[1].split("|")
+                if len(parts) == 2 and parts[1].startswith("f:"):
+                    comp[side[0]] = (place_local(o[1]), int(parts[1].split(":")[1]))
+    if set(comp) != {"left", "right"} or comp["left"][0] != comp["right"][0]:
+        R.undecided("C09.R5", "join-side-table:shape", f"cannot relate the per-side flags to the recursive calls ({comp})", wc.loc())
+        return
+    tl = comp["left"][0]
+    arms_seen = 0
+    for a in ms[0]["arms"]:
+        heads = [pat_head(x).rsplit("::", 1)[-1] for x in pat_alternatives(a["pat"])]
+        tuples = [(i, rv) for i, j, dst, rv, line in wc.stmts() if dst == str(tl) and rv[0] == "agg" and rv[1] == "tuple" and len(rv[2]) == 2 and a["span"][0] <= line <= a["span"][2]]
+        if len(tuples) != 1:
+            R.undecided("C09.R5", f"join-side-table:{'|'.join(heads)}", f"{len(tuples)} side tuples in this arm", f"{wc.file}:{a['span'][0]}")
+            continue
+        i, rv = tuples[0]
+        isfalse = [isinstance(o, dict) and o.get("v") is False for o in rv[2]]
+        lf, rf_ = isfalse[comp["left"][1]], isfalse[comp["right"][1]]
+        for h in heads:
+            arms_seen += 1
+            allow_l, allow_r = SIDE_TABLE.get(h, (False, False))
+            ok = (allow_l or lf) and (allow_r or rf_)
+            R.check(ok, "C09.R5", f"join-side-table:{h if h in SIDE_TABLE else 'other'}", f"join type {h}: the {'left' if not (allow_l or lf) else 'right'} input may inherit shard-safety although it is the null-supplying / build side: sharding a table under it duplicates (outer) or multiplies (semi/anti) rows across shards", f"{wc.file}:{a['span'][0]}", dict(left_forced_false=lf, right_forced_false=rf_))
+    R.floor("C09.R5", "join-type arms examined", arms_seen, 7)
+    # scan eligibility
+    TC = "distributed::plan::TableCensus"
+    stores = [i for i, j, dst, rv, line in wc.stmts() if place_fields(dst)[-1:] == [("eligible_once", TC)] and isinstance(rv[1], dict) and rv[1].get("v") is True]
+    R.floor("C09.R5", "eligible_once = true stores", len(stores), 1)
+    for i in stores:
+        gs = guards.guards_of(wc, i, require_err=False)
+        g_safe = any("shard_safe" in cd and v is True for sb, cd, v in gs)
+        g_sub = any("in_subquery" in cd and ((cd.startswith("Not(") and v is True) or (not cd.startswith("Not(") and v is False)) for sb, cd, v in gs)
+        R.check(g_safe and g_sub, "C09.R5", "scan:eligible-only-when-safe-and-not-in-subquery", "a scan is marked shard-eligible without both guards (!in_subquery && shard_safe)", wc.loc(i), dict(guards=[(cd, v) for sb, cd, v in gs]))
 
 
 def run(F, R):
@@ -149,3 +219,6 @@ def run(F, R):
                 g_ok = a["cls"] in ("ret:Err", "Err")
         okm = g_ok and shapes <= covered
     R.check(okm, "C09.R4", "merge:every-shape-handled,Gather-refused", "merge() does not handle every MergeShape explicitly or accepts Gather", mg.loc(), dict(shapes=sorted(shapes)))
+    shard_safety(F, R)
+    import splitid
+    splitid.run(F, R, "C09.R6")
